@@ -931,6 +931,36 @@ theorem witness_violates_no_stale_lock : ¬ NoStaleLock exStaleClosed := by
   rw [hf] at this
   exact absurd this.1.1 (by decide)
 
+/-! ### the majority-claim gate for conflicting votes (reactor glue that lets late information in) -/
+
+def exPcIn (r : Nat) (b : Bid) (v : Nat) : Input := .vote ⟨.precommit, r, b, v, true, v, v⟩ (1 + v)
+
+/-- validator 0 locks block 0 in round 0; in round 1 it sees the prevotes of validators 1 and 2 for
+block 1 and the prevote NIL of the equivocating validator 3 (no polka); it moves on to round 2 -/
+def exGate : List Input :=
+  [.timeout 0 .newHeight, exPvIn 0 (some 0) 1, exPvIn 0 (some 0) 3,
+   exPcIn 0 none 1, exPcIn 0 none 2, exPcIn 0 none 3, .timeout 0 .precommitWait,
+   .proposal ⟨1, 1, -1, 1⟩, .blockComplete 1,
+   exPvIn 1 (some 1) 1, exPvIn 1 (some 1) 2, exPvIn 1 none 3, .timeout 1 .prevoteWait,
+   exPcIn 1 (some 1) 1, exPcIn 1 (some 1) 2, exPcIn 1 none 3, .timeout 1 .precommitWait]
+
+/-- **a peer's majority claim for a PAST round is what admits the equivocator's second vote**
+(`VoteSetMaj23` → `Reactor.ReceiveEnvelope` → `HeightVoteSet.SetPeerMaj23`, then the `peerMaj23` gate
+of `VoteSet.addVerifiedVote`): in round 2, still locked on block 0, the node is handed validator 3's
+OTHER prevote of round 1, for block 1. Without a claim it is refused as conflicting: no polka, the lock
+stays. After the claim "+2/3 prevoted block 1 in round 1" of peer 2 — a round BELOW the node's round —
+the same vote is admitted, completes the polka of round 1, and the node unlocks. (The stream drives
+the real `Reactor.ReceiveEnvelope` for every claim; generator kind `equivocator-past-round-claim`;
+oracle fingerprint `sync.conflicting-vote-not-admitted.peer-maj23-claim-ignored`.) -/
+theorem past_round_claim_admits_conflicting_vote :
+    (run exNode0 .init exGate).round = 2 ∧ (run exNode0 .init exGate).lockedBlock = some 0 ∧
+    (run exNode0 .init (exGate ++ [exPvIn 1 (some 1) 3])).lockedBlock = some 0 ∧
+    maj23Of ((run exNode0 .init (exGate ++ [exPvIn 1 (some 1) 3])).votes.prevotes 1) = none ∧
+    (run exNode0 .init (exGate ++ [.peerMaj23 1 .prevote 2 (some 1), exPvIn 1 (some 1) 3])).lockedBlock = none ∧
+    maj23Of ((run exNode0 .init (exGate ++ [.peerMaj23 1 .prevote 2 (some 1), exPvIn 1 (some 1) 3])).votes.prevotes 1) =
+      some (some 1) := by
+  decide
+
 /-! ### non-vacuity of the hypotheses above -/
 
 /-- a node state satisfying the hypotheses of `commit_step_waits_for_block`: validator 2 of the
